@@ -304,6 +304,15 @@ func checkpointIDFromFilePath(filePath string) (id uint64, ok bool) {
 	return parsePathSegment(strings.TrimSuffix(strings.TrimPrefix(name, "job-"), ".snapshot"))
 }
 
+// savepointIDFromFilePath returns the checkpoint ID encoded in the directory
+// name of a job savepoint file ("<pathSegment(id)>/job.savepoint").
+func savepointIDFromFilePath(filePath string) (id uint64, ok bool) {
+	if filepath.Base(filePath) != "job.savepoint" {
+		return 0, false
+	}
+	return parsePathSegment(filepath.Base(filepath.Dir(filePath)))
+}
+
 // LoadCheckpoint loads the latest checkpoint from disk and stores it in
 // memory.
 func (s *Store) LoadCheckpoint() error {
@@ -335,6 +344,11 @@ func (s *Store) LoadCheckpoint() error {
 				return err
 			}
 			if id, ok := checkpointIDFromFilePath(filePath); ok && id > newestLocalID {
+				newestLocalID = id
+			}
+			// Savepoint directories are named by their checkpoint ID, so the IDs of
+			// savepoints that already exist must not be handed out again either.
+			if id, ok := savepointIDFromFilePath(filePath); ok && id > newestLocalID {
 				newestLocalID = id
 			}
 		}
